@@ -344,6 +344,25 @@ func genModel(p *simkit.Plan, r *simkit.Rand, tier string) {
 			op := simkit.Op{Actor: "user", Kind: "swaplink", S: []string{simkit.Pick(r, []string{"alpha", "beta"}), simkit.Pick(r, []string{"a", "b", "c", "a/b", "a/a"})}}
 			p.Ops = append(p.Ops[:at:at], append([]simkit.Op{op}, p.Ops[at:]...)...)
 		}
+		if r.Chance(1, 4) && c["dev_side"] == 0 {
+			// Root creation: the receiving root does not exist yet, the first
+			// cycle creates it with everything in it through one change at the
+			// root path - and the user swaps a directory that has just been
+			// made there for a link to the canary.
+			c["mirror_init"] = 0
+			dst := "beta"
+			var pre []simkit.Op
+			for _, path := range []string{"a/b/d", "a/a/a", "c/b", "b"} {
+				id++
+				pre = append(pre, simkit.Op{Actor: "init", Kind: "put", N: []int64{id, 0}, S: []string{"alpha", path}})
+			}
+			p.Ops = append(append(pre, p.Ops...), simkit.Op{Actor: "init", Kind: "rootdel", S: []string{dst, ""}})
+			id++
+			// (Armed before the session exists: the first cycle starts at once.)
+			p.Ops = append(p.Ops, simkit.Op{Actor: "init", Kind: "arm", N: []int64{int64(r.Range(2, 16)), id}, S: []string{dst, "transition", "swaplink", simkit.Pick(r, []string{"a", "a/b", "a/a", "c"})}},
+				simkit.Op{Actor: "client", Kind: "flush", N: []int64{1}})
+			c["root_creation"] = 1
+		}
 		if r.Chance(1, 3) {
 			// Copy through a swapped parent: both sides hold a/b/d; one side
 			// copies it to a new path, so the other side's staging can source
